@@ -1,12 +1,13 @@
 package c18
 
-// cseval_test.go: one request through the strict content-security gate,
-// compared with the reference verdict.
+// cseval_test.go: one request through the content-security gate (strict unless
+// stated otherwise), compared with the reference verdict.
 
 import (
 	"bytes"
 	"crypto/rsa"
 	"fmt"
+	"io"
 	"net/http"
 	"strings"
 	"time"
@@ -25,6 +26,10 @@ type csSpec struct {
 	Detail string `json:"detail"`
 	Req    csReq  `json:"request"`
 	Must   bool   `json:"must_accept"`
+	// ObsOnly: this request differs from a valid one in MORE than one field (outside the
+	// property's quantifier); "ran without a valid signature" is then counted under this
+	// observation name instead of being reported.
+	ObsOnly string `json:"observation_only,omitempty"`
 }
 
 type csEnv struct {
@@ -32,26 +37,36 @@ type csEnv struct {
 	configured map[string]*rsa.PrivateKey // reference side
 	confIdx    []int
 	tol        time.Duration
+	strict     bool
 	gate       func(http.Handler) http.Handler
 	shape      string
 	t          tally
 	keyPrefix  string // "C18/cs" or "C18/e2e/cs"
+	// exec != nil: the request travels to a real rest.Server instead of through gate
+	exec func(q csReq, p *probe) (st status, panicked string, err error)
+	born time.Time // when the case's timestamps were chosen
+	dead bool      // wall-clock margin used up: nothing more is judged in this case
 }
 
-func newCSEnv(c *kit.Case, confIdx []int, tol time.Duration) *csEnv {
-	e := &csEnv{c: c, configured: map[string]*rsa.PrivateKey{}, confIdx: confIdx, tol: tol, t: tally{}, keyPrefix: "C18/cs"}
+func newCSEnv(c *kit.Case, confIdx []int, tol time.Duration, strict bool) *csEnv {
+	e := &csEnv{c: c, configured: map[string]*rsa.PrivateKey{}, confIdx: confIdx, tol: tol, strict: strict, t: tally{}, keyPrefix: "C18/cs", born: time.Now()}
 	decs := map[string]codec.RsaDecrypter{}
 	for _, i := range confIdx {
 		e.configured[rsaKeys[i].Fingerprint] = rsaKeys[i].priv
 		decs[rsaKeys[i].Fingerprint] = rsaKeys[i].dec
 	}
 	if c.R.Bool() {
-		e.gate = handler.ContentSecurityHandler(decs, tol, true)
+		e.gate = handler.ContentSecurityHandler(decs, tol, strict)
 	} else {
-		e.gate = handler.LimitContentSecurityHandler(int64(kit.Choose(c.R, []int{0, 1 << 16, 1 << 20})), decs, tol, true)
+		e.gate = handler.LimitContentSecurityHandler(int64(kit.Choose(c.R, []int{0, 1 << 16, 1 << 20})), decs, tol, strict)
 	}
 	return e
 }
+
+// plainReader hides the concrete reader type so that net/http cannot learn the length.
+type plainReader struct{ r io.Reader }
+
+func (p plainReader) Read(b []byte) (int, error) { return p.r.Read(b) }
 
 func (q csReq) httpRequest() *http.Request {
 	target := "http://verif.local" + q.Path
@@ -60,19 +75,29 @@ func (q csReq) httpRequest() *http.Request {
 	}
 	req := newReq("POST", target, q.Body)
 	req.Method = q.Method
+	if q.UnknownLength && q.Body != nil {
+		req.Body = io.NopCloser(plainReader{bytes.NewReader(q.Body)})
+		req.ContentLength = -1
+		req.TransferEncoding = []string{"chunked"}
+	}
 	if !q.NoHdr {
 		req.Header.Set("X-Content-Security", q.Header)
+	}
+	if q.ReqURI != "" {
+		req.Header.Set("X-Request-Uri", q.ReqURI)
 	}
 	return req
 }
 
 func verifiedMethod(m string) bool { return m == "GET" || m == "POST" || m == "PUT" || m == "DELETE" }
 
-// violKey: requests whose own method is outside {GET,POST,PUT,DELETE} are one
-// input class per method; all others are keyed by the mutation class.
+const unverifiedMethodClass = "method-not-in-GET-POST-PUT-DELETE"
+
+// csViolKey: requests whose own method is outside {GET,POST,PUT,DELETE} form ONE
+// input class (whatever else was mutated); all others are keyed by the mutation class.
 func csViolKey(prefix, what string, s csSpec) string {
 	if !verifiedMethod(s.Req.Method) {
-		return prefix + "/" + what + "/method-" + s.Req.Method
+		return prefix + "/" + what + "/" + unverifiedMethodClass
 	}
 	return prefix + "/" + what + "/" + s.Kind
 }
@@ -82,28 +107,63 @@ func csWitness(e *csEnv, s csSpec, v csVerdict, status int, ran bool, extra stri
 	for _, i := range e.confIdx {
 		fps = append(fps, rsaKeys[i].Fingerprint)
 	}
-	return map[string]any{"configured_fingerprints": fps, "tolerance": e.tol.String(), "strict": true, "spec": s,
+	return map[string]any{"configured_fingerprints": fps, "tolerance": e.tol.String(), "strict": e.strict, "spec": s,
 		"body_text": clip(string(s.Req.Body), 300), "unix_now": time.Now().Unix(),
 		"reference": map[string]any{"valid": v.valid, "reason": v.reason, "type": v.ctype, "client_key_hex": fmt.Sprintf("%x", v.key)},
 		"observed":  map[string]any{"handler_ran": ran, "status": status}, "detail": extra}
 }
 
-// run serves one request in-process and applies the oracle; plaintext is what the
-// client encrypted into the body (nil when the body is not encrypted by us).
-func (e *csEnv) run(s csSpec, resp []byte) (ran bool, rec status) {
+// run serves one request (in-process, or over the wire when e.exec is set) and
+// applies the oracle; resp is what the protected handler answers.
+func (e *csEnv) run(s csSpec, resp []byte) (ran bool, st status) {
 	c := e.c
+	if e.dead {
+		return false, status{}
+	}
 	req := s.Req.httpRequest()
 	s.Req.Path, s.Req.Query = req.URL.Path, req.URL.RawQuery // THIS request's path and query
 	p := &probe{resp: resp, writes: c.R.Range(1, 3)}
 	t0 := time.Now()
 	v := refVerifyCS(s.Req, e.configured, t0.Unix(), int64(e.tol.Seconds()))
-	rr, pan := serve(e.gate(protected(p)), req)
-	if time.Since(t0) > 60*time.Second {
-		c.Inconclusive("content-security request took more than 60 s of wall time; the timestamp margin is void")
+	var pan string
+	if e.exec != nil {
+		var err error
+		st, pan, err = e.exec(s.Req, p)
+		if err != nil {
+			e.t["e2e_cs_requests_not_deliverable"]++
+			return false, status{}
+		}
+		if !p.ran() && st.code >= 500 {
+			c.Inconclusive(fmt.Sprintf("e2e signed request answered %d by the server infrastructure", st.code))
+			return false, st
+		}
+	} else {
+		rr, pn := serve(e.gate(protected(p)), req)
+		pan = pn
+		st = status{code: rr.Code, body: rr.Body.Bytes()}
+	}
+	// every generated timestamp keeps >= 60 s distance from the tolerance edges as seen at e.born
+	if time.Since(e.born) > 45*time.Second || time.Since(t0) > 30*time.Second {
+		c.Inconclusive("content-security case used up its wall-clock margin (45 s); remaining requests of the case are not judged")
+		e.dead = true
 		return false, status{}
 	}
 	ran = p.ran()
-	st := status{code: rr.Code, body: rr.Body.Bytes()}
+	if !e.strict {
+		// the statement speaks about strict mode only: observe, never judge
+		c.Evals(1)
+		e.t["cs_nonstrict_requests"]++
+		if ran {
+			e.t["cs_nonstrict_handler_ran"]++
+			if !v.valid {
+				e.t["cs_nonstrict_ran_with_invalid_signature"]++
+			}
+		} else {
+			e.t[fmt.Sprintf("cs_nonstrict_rejected_status_%d", st.code)]++
+		}
+		c.Sig(false, e.keyPrefix, "nonstrict", s.Kind, s.Detail, s.Req.Method, ran)
+		return ran, st
+	}
 	e.judge(s, v, p, ran, st, pan)
 	return ran, st
 }
@@ -113,7 +173,7 @@ type status struct {
 	body []byte
 }
 
-// judge is shared by the in-process and the end-to-end families.
+// judge is shared by the in-process and the end-to-end families (strict mode).
 func (e *csEnv) judge(s csSpec, v csVerdict, p *probe, ran bool, st status, pan string) {
 	c := e.c
 	c.Evals(1)
@@ -121,16 +181,31 @@ func (e *csEnv) judge(s csSpec, v csVerdict, p *probe, ran bool, st status, pan 
 	e.t["cs_kind_"+strings.SplitN(s.Kind, "/", 2)[0]]++
 	c.Sig(s.Kind != "base", e.keyPrefix, s.Kind, s.Detail, s.Req.Method, e.shape, ran)
 	if pan != "" {
-		c.Viol(csViolKey("C18/panic/cs", "panic", s), "content security handler panicked", csWitness(e, s, v, st.code, ran, pan))
+		if v.valid && s.Must {
+			viol(c, csViolKey("C18/panic/"+e.keyPrefix[4:], "valid-request", s), "content security handler panicked on a correctly signed request", csWitness(e, s, v, st.code, ran, pan))
+		} else {
+			// the handler did not run; the statement does not say how a malformed request is refused
+			e.t["cs_panics_on_requests_not_required_to_pass"]++
+			e.t["cs_panic_kind_"+s.Kind]++
+		}
 		return
 	}
 	switch {
+	case ran && !v.valid && s.ObsOnly != "":
+		e.t[s.ObsOnly]++
 	case ran && !v.valid:
-		c.Viol(csViolKey(e.keyPrefix, "ran-without-valid-signature", s),
+		viol(c, csViolKey(e.keyPrefix, "ran-without-valid-signature", s),
 			"the protected handler ran although the request's signature does not verify (reference: "+v.reason+")", csWitness(e, s, v, st.code, ran, ""))
 	case !ran && v.valid && s.Must:
-		c.Viol(csViolKey(e.keyPrefix, "valid-rejected", s), fmt.Sprintf("a correctly signed request was rejected with status %d", st.code),
-			csWitness(e, s, v, st.code, ran, ""))
+		cls := csViolKey(e.keyPrefix, "valid-rejected", s)
+		if v.ctype == "1" && len(s.Req.Body) > 0 {
+			if ct, err := b64s.DecodeString(string(s.Req.Body)); err == nil {
+				if plain, err := refEcbDecrypt(v.key, ct); err == nil && len(plain) == 0 {
+					cls = e.keyPrefix + "/valid-rejected/encrypted-empty-payload"
+				}
+			}
+		}
+		viol(c, cls, fmt.Sprintf("a correctly signed request was rejected with status %d", st.code), csWitness(e, s, v, st.code, ran, ""))
 	}
 	if !ran {
 		e.t[fmt.Sprintf("cs_rejected_status_%d", st.code)]++
@@ -144,10 +219,11 @@ func (e *csEnv) judge(s csSpec, v csVerdict, p *probe, ran bool, st status, pan 
 		return
 	}
 	if p.runs != 1 {
-		c.Viol(csViolKey(e.keyPrefix, "handler-ran-twice", s), fmt.Sprintf("handler ran %d times", p.runs), csWitness(e, s, v, st.code, ran, ""))
+		viol(c, csViolKey(e.keyPrefix, "handler-ran-twice", s), fmt.Sprintf("handler ran %d times", p.runs), csWitness(e, s, v, st.code, ran, ""))
 	}
 	// what the handler saw / what came back
-	if v.ctype == "1" && len(s.Req.Body) > 0 {
+	switch {
+	case v.ctype == "1" && len(s.Req.Body) > 0:
 		ct, err := b64s.DecodeString(string(s.Req.Body))
 		if err != nil {
 			e.t["cs_ran_with_undecodable_encrypted_body"]++
@@ -159,19 +235,39 @@ func (e *csEnv) judge(s csSpec, v csVerdict, p *probe, ran bool, st status, pan 
 			return
 		}
 		e.t["cs_encrypted_bodies_checked"]++
+		cls := ""
+		switch {
+		case !verifiedMethod(s.Req.Method):
+			cls = unverifiedMethodClass
+		case s.Req.UnknownLength:
+			cls = "unknown-content-length"
+		}
 		if !bytes.Equal(p.body, plain) {
-			c.Viol(e.keyPrefix+"/encrypted-body-not-decrypted/"+sizeClass(len(plain)), fmt.Sprintf("handler saw %d bytes %q, the client encrypted %d bytes %q",
+			k := cls
+			if k == "" {
+				k = sizeClass(len(plain))
+			}
+			viol(c, e.keyPrefix+"/encrypted-body-not-decrypted/"+k, fmt.Sprintf("handler saw %d bytes %q, the client encrypted %d bytes %q",
 				len(p.body), clip(string(p.body), 80), len(plain), clip(string(plain), 80)), csWitness(e, s, v, st.code, ran, ""))
 		}
 		if s.Req.Method != "HEAD" {
-			checkEncryptedResponse(c, e.keyPrefix, v.key, p.resp, st.body, csWitness(e, s, v, st.code, ran, ""))
+			checkEncryptedResponse(c, e.keyPrefix, cls, v.key, p.resp, st.body, csWitness(e, s, v, st.code, ran, ""))
 		}
-	} else {
+	case v.ctype == "1":
+		// declared encrypted but no body: the statement's subject ("an encrypted body") is absent
+		if len(p.resp) > 0 && bytes.Equal(st.body, p.resp) {
+			e.t["cs_type1_without_body_response_returned_in_plaintext"]++
+		} else if len(p.resp) > 0 {
+			e.t["cs_type1_without_body_response_not_plaintext"]++
+		}
+	case v.ctype == "0":
 		e.t["cs_plain_bodies_checked"]++
 		if !bytes.Equal(p.body, s.Req.Body) {
-			c.Viol(e.keyPrefix+"/plain-body-altered", fmt.Sprintf("handler saw %q, the client sent %q", clip(string(p.body), 80), clip(string(s.Req.Body), 80)),
+			viol(c, csViolKey(e.keyPrefix, "plain-body-altered", s), fmt.Sprintf("handler saw %q, the client sent (and signed) %q", clip(string(p.body), 80), clip(string(s.Req.Body), 80)),
 				csWitness(e, s, v, st.code, ran, ""))
 		}
+	default:
+		e.t["cs_ran_with_unusual_type_field"]++
 	}
 }
 
@@ -187,17 +283,24 @@ func sizeClass(n int) string {
 }
 
 // checkEncryptedResponse: wire = base64(AES-ECB(PKCS7(plain))) under key. An
-// empty plaintext response may also travel as an empty body.
-func checkEncryptedResponse(c *kit.Case, prefix string, key, plain, wire []byte, w map[string]any) {
+// empty plaintext response may also travel as an empty body. class overrides the
+// size class in the key ("" = by size).
+func checkEncryptedResponse(c *kit.Case, prefix, class string, key, plain, wire []byte, w map[string]any) {
 	if len(plain) == 0 && len(wire) == 0 {
 		kit.Obs("responses_empty_plain_empty_wire", 1)
 		return
 	}
 	kit.Obs("responses_decrypted_and_compared", 1)
+	if class == "" {
+		class = sizeClass(len(plain))
+		if len(plain) > 0 && len(plain) < 16 {
+			class = "shorter-than-one-block"
+		}
+	}
 	fail := func(why string) {
 		w["response_wire"] = clip(string(wire), 200)
 		w["response_plain_len"] = len(plain)
-		c.Viol(prefix+"/response-not-encrypted/"+sizeClass(len(plain)), "response of "+fmt.Sprint(len(plain))+" plaintext bytes: "+why, w)
+		viol(c, prefix+"/response-not-encrypted/"+class, "response of "+fmt.Sprint(len(plain))+" plaintext bytes: "+why, w)
 	}
 	ct, err := b64s.DecodeString(string(wire))
 	if err != nil {
